@@ -17,12 +17,16 @@ From Coq Require Import QArith Qcanon.
 From GS Require Export Corr.MMLib Model.Content.
 
 Inductive op :=
+| OSeed (r : nat) (es : list entry)     (* regs[r] = a map holding exactly these series: the residue
+                                          MetricAggregator.Reset leaves (timers with NO values, counters
+                                          at 0, sets with no members, gauges) or any other map *)
 | ORecv (r : nat) (d : datapoint)
 | OMerge (into from : nat)             (* regs[into].Merge(regs[from]); regs[from] is dead afterwards *)
 | OMergeMaps (dst : nat) (srcs : list nat). (* regs[dst] = MergeMaps(srcs); the sources are dead *)
 
 Inductive batch :=
-| BMap (ds : list datapoint)       (* a map built by Receive, handed to ReceiveMetricMap *)
+| BMap (es : list entry) (ds : list datapoint) (* a map holding the series es, then built up by Receive,
+                                                  handed to ReceiveMetricMap *)
 | BMetrics (ds : list datapoint).  (* a slice handed to ReceiveMetrics *)
 
 Inductive c07case :=
@@ -39,6 +43,7 @@ Fixpoint set_reg (rs : list mmap) (i : nat) (m : mmap) : list mmap :=
 
 Definition exec (rs : list mmap) (o : op) : list mmap :=
   match o with
+  | OSeed r es => set_reg rs r (map_of_entries es)
   | ORecv r d => set_reg rs r (receive (reg rs r) d)
   | OMerge i f => set_reg rs i (merge (reg rs i) (reg rs f))
   | OMergeMaps d srcs => set_reg rs d (merge_maps (map (reg rs) srcs))
@@ -77,12 +82,12 @@ Definition projects (ls : list mmap) (m : mmap) (es : list entry) : bool :=
 
 Definition batch_leaves (b : batch) : list mmap :=
   match b with
-  | BMap ds => [receive_all empty_map ds]
+  | BMap es ds => [receive_all (map_of_entries es) ds]
   | BMetrics ds => singleton <$> ds
   end.
 
-(* stream 1: the leaves that flowed into each register (provenance), for ANY program: every
-   received datapoint is a leaf; a merge concatenates the provenance *)
+(* stream 1: the leaves that flowed into each register (provenance), for ANY program: a
+   seeded map and every received datapoint is a leaf; a merge concatenates the provenance *)
 Definition lreg (ls : list (list mmap)) (i : nat) : list mmap := nth i ls [].
 Fixpoint set_lreg (ls : list (list mmap)) (i : nat) (x : list mmap) : list (list mmap) :=
   match ls, i with
@@ -92,6 +97,7 @@ Fixpoint set_lreg (ls : list (list mmap)) (i : nat) (x : list mmap) : list (list
   end.
 Definition exec_leaves (ls : list (list mmap)) (o : op) : list (list mmap) :=
   match o with
+  | OSeed r es => set_lreg ls r [map_of_entries es]
   | ORecv r d => set_lreg ls r (lreg ls r ++ [singleton d])
   | OMerge i f => set_lreg ls i (lreg ls i ++ lreg ls f)
   | OMergeMaps d srcs => set_lreg ls d (concat (map (lreg ls) srcs))
